@@ -6,6 +6,7 @@ from .. import corr
 from ..synth import Synth, NAMES, FAILS, UNRESOLVABLE, PKG
 
 STREAMS = ["trees", "pipeline-elements"]
+REGENERATE_SRC = True
 RULE = ("random trees of mappings, lists and scalars (depth <= 6, fan-out <= 5; thorough deeper) with __type__ nodes "
         "at random positions, factories = function, submodule function, class, nested attribute, raising factory, "
         "non-callable attribute, module objects, unresolvable names (no module / no attribute / nested), non-string "
